@@ -159,6 +159,9 @@ func job(sc scen, cfg vsched.Config) sdrv.Job {
 					vsched.SleepAlign(3*time.Millisecond, 2*time.Millisecond)
 				}
 				switch m.Kind {
+				case "park":
+					// nothing happens for a long time: a waiter that has been parked for seconds still notices the next change promptly
+					vsched.Sleep(3 * time.Second)
 				case "put":
 					put(50, m.Key)
 				case "reput":
@@ -406,6 +409,9 @@ func main() {
 		add("redis", []waiter{{"/s", v}}, seqs(onS, 1), []int{0, 1}, 1)
 	}
 	add("redis", []waiter{{"a", "current"}}, seqs(same[:2], 2), []int{0, 1}, 1)
+	for _, m := range []mop{{"put", "a"}, {"delete", "a"}, {"casok", "a"}} {
+		add("redis", []waiter{{"a", "current"}}, [][]mop{{{"park", "a"}, m}}, []int{0}, 1)
+	}
 	// three waiters
 	three := [][]waiter{{{"a", "current"}, {"a", "current"}, {"a", "current"}}, {{"a", "current"}, {"a", "current"}, {"b", "current"}}, {{"a", "current"}, {"a", "stale"}, {"a", "current"}}}
 	for _, ws := range three {
